@@ -262,6 +262,8 @@ pub struct StepRecord {
     pub crashed: bool,
     pub kind: &'static str,
     pub src_obs: Vec<Obs>,
+    /// snapshots of the completed versions as known after this step
+    pub snapshots_after: BTreeMap<u32, Vec<Obs>>,
 }
 
 pub struct HistOpts {
@@ -309,7 +311,7 @@ pub fn run_history(steps: &[Step], o: &HistOpts, report: &mut Report, case_id: &
         let raw_before = if o.raw { raw_files(&arch) } else { BTreeMap::new() };
         let state_before = state.clone();
         let case = json!({"history": case_id, "step_index": si, "step": step_json(step)});
-        let mut rec = StepRecord { step: step_json(step), real: None, i_req: None, state_before, state_after: vec![], i_dump: 0, raw_before, raw_after: BTreeMap::new(), crashed: false, kind: "set-tree", src_obs: vec![] };
+        let mut rec = StepRecord { step: step_json(step), real: None, i_req: None, state_before, state_after: vec![], i_dump: 0, raw_before, raw_after: BTreeMap::new(), crashed: false, kind: "set-tree", src_obs: vec![], snapshots_after: BTreeMap::new() };
         match step {
             Step::SetTree(t) => {
                 if src.exists() {
@@ -380,6 +382,7 @@ pub fn run_history(steps: &[Step], o: &HistOpts, report: &mut Report, case_id: &
             rec.raw_after = raw_files(&arch);
         }
         rec.src_obs = obs.clone();
+        rec.snapshots_after = run.snapshots.clone();
         report.hit(&format!("step:{}", rec.kind));
         // ---- every surviving complete version restores to its own snapshot
         if o.restore_each && rec.kind != "set-tree" {
